@@ -400,12 +400,27 @@ class Extracted:
                     nm = al.asname or al.name
                     if nm in _global_names(code) and nm not in env and hasattr(pure[st.module], al.name):
                         env[nm] = getattr(pure[st.module], al.name)
+        # sibling closures: other functions nested in the same enclosing function (``outer.<locals>.helper`` next to ``outer.<locals>.f``)
+        parts = [p_ for p_ in self.qualname.split(".") if p_ != "<locals>"]
+        if len(parts) > 1:
+            try:
+                outer = find_def(tree, ".".join(parts[:-1]))
+            except ExtractionError:
+                outer = None
+            if isinstance(outer, ast.FunctionDef):
+                for st in _walk_defs(outer.body):
+                    if isinstance(st, ast.FunctionDef) and st.name != parts[-1] and st.name not in top:
+                        top[st.name] = (self.relpath, ".".join(parts[:-1]) + "." + st.name, st.name)
         for name in sorted(_global_names(code)):
             if name in env or name in seen or hasattr(builtins, name) or name not in top:
                 continue
             seen.add(name)
             where = top[name]
-            rel, real_name = (where, name) if isinstance(where, str) else where
+            if isinstance(where, tuple) and len(where) == 3:
+                rel, real_name = where[0], where[1]
+                where = (rel, name)
+            else:
+                rel, real_name = (where, name) if isinstance(where, str) else where
             try:
                 if self.native_all:
                     ex = extract(rel, real_name, native_loops="all", sym_containers=self.sym_containers)
@@ -413,7 +428,7 @@ class Extracted:
                     ex = extract(rel, real_name, cut_loops="auto", sym_containers=self.sym_containers)
             except ExtractionError:
                 continue
-            if real_name != name:
+            if real_name.split(".")[-1] != name:
                 continue
             m = ast.Module(body=[ex.node], type_ignores=[])
             ast.fix_missing_locations(m)
